@@ -423,7 +423,13 @@ func writeLiveSegment(log *slog.Logger, w http.ResponseWriter, cfg *ResponseConf
 	if err != nil {
 		return fmt.Errorf("convertToLive: %w", err)
 	}
+	return writeWholeSegment(log, w, cfg, drmCfg, outSeg)
+}
+
+// writeWholeSegment writes a generated live segment in one piece, encrypted if the configuration asks for it.
+func writeWholeSegment(log *slog.Logger, w http.ResponseWriter, cfg *ResponseConfig, drmCfg *drm.DrmConfig, outSeg segOut) error {
 	var data []byte
+	var err error
 	if outSeg.seg != nil {
 		if cfg.DRM != "" {
 			frags := outSeg.seg.Fragments
@@ -702,6 +708,11 @@ func writeChunkedSegment(ctx context.Context, log *slog.Logger, w http.ResponseW
 	}
 	rep := so.meta.rep
 	seg := so.seg
+	if rep.PreEncrypted {
+		// The encryption data of the samples (senc, saiz, saio boxes) is not carried over to new chunks,
+		// so a pre-encrypted segment is written as a whole. A DRM parameter is refused as for whole segments.
+		return writeWholeSegment(log, w, cfg, drmCfg, so)
+	}
 
 	// Some part of the segment should be available, and is delivered directly.
 	// The rest are returned HTTP chunks as time passes.
